@@ -64,20 +64,71 @@ def run_property(prop, tier, seed, only=None, jobs=None):
         for i in idxs:
             results.append(_worker((modname, i, env)))
     else:
-        ctx = mp.get_context("fork")
-        with ctx.Pool(jobs, maxtasksperchild=1) as pool:
-            asyncs = [(i, pool.apply_async(_worker, ((modname, i, env),))) for i in idxs]
-            for i, a in asyncs:
-                left = max(5, budget - (time.time() - t0))
-                try:
-                    results.append(a.get(timeout=left))
-                except mp.TimeoutError:
-                    results.append({"task": tasks[i].name, "status": "undecided", "error": f"task exceeded {budget}s",
-                                    "obligations": [], "paths": 0, "covers": {}, "functions": [], "solver": {},
-                                    "wall_s": budget, "bounded": tasks[i].bounded, "bounds_applied": [], "samples": {},
-                                    "declared_functions": tasks[i].functions, "notes": []})
-            pool.terminate()
+        results = _run_parallel(modname, tasks, idxs, env, jobs, budget, t0)
     return mod, results, time.time() - t0
+
+
+def _child(conn, args):
+    try:
+        if os.environ.get("PYVC_TEST_KILL_FIRST_ATTEMPT") == f"{args[1]}:{args[3]}":
+            os.kill(os.getpid(), 11)      # self-test of the retry below
+        conn.send(_worker(args[:3]))
+    finally:
+        conn.close()
+
+
+def _run_parallel(modname, tasks, idxs, env, jobs, budget, t0):
+    """one process per task (fork), at most `jobs` at a time.  A process that dies without handing back a result -- a solver library
+    crashing under it -- is started again (three attempts); a multiprocessing.Pool would lose the task and wait for ever."""
+    from multiprocessing.connection import wait
+    ctx = mp.get_context("fork")
+    pending, running, done, attempts, died = list(idxs), {}, {}, {i: 0 for i in idxs}, {}
+
+    def blank(i, status, error):
+        return {"task": tasks[i].name, "status": status, "error": error, "obligations": [], "paths": 0, "covers": {}, "functions": [], "solver": {},
+                "wall_s": round(time.time() - t0, 1), "bounded": tasks[i].bounded, "bounds_applied": [], "samples": {}, "declared_functions": tasks[i].functions, "notes": []}
+    while pending or running:
+        while pending and len(running) < jobs:
+            i = pending.pop(0)
+            attempts[i] += 1
+            parent, child = ctx.Pipe(duplex=False)
+            p = ctx.Process(target=_child, args=(child, (modname, i, env, attempts[i])))
+            p.start()
+            child.close()
+            running[i] = (p, parent)
+        ready = wait([c for _p, c in running.values()], timeout=1.0)
+        for i, (p, c) in list(running.items()):
+            if c not in ready:
+                continue
+            try:
+                r = c.recv()
+            except (EOFError, OSError):
+                r = None
+            c.close()
+            p.join(5)
+            del running[i]
+            if r is not None:
+                if died.get(i):
+                    r.setdefault("notes", []).append(f"the task's process died {died[i]} time(s) without a result and was run again")
+                done[i] = r
+            else:
+                died[i] = died.get(i, 0) + 1
+                sys.stderr.write(f"pyvc: the process of task {tasks[i].name} died without a result (exit code {p.exitcode}); attempt {attempts[i]} of 3\n")
+                if attempts[i] < 3:
+                    pending.append(i)
+                else:
+                    done[i] = blank(i, "crash", f"the task's process died three times without a result (last exit code {p.exitcode})")
+        if time.time() - t0 > budget:
+            for i, (p, c) in running.items():
+                p.terminate()
+                c.close()
+                done[i] = blank(i, "undecided", f"task exceeded {budget}s")
+            for i in pending:
+                done[i] = blank(i, "undecided", f"not started within {budget}s")
+            for p, _c in running.values():
+                p.join(5)
+            break
+    return [done[i] for i in idxs]
 
 
 _RANK = {"discharged": 0, "undecided": 1, "failed": 2}
